@@ -48,6 +48,59 @@ def progress_obligations(rep: Report, ir, prop: str):
                         rep.ok(oid, "precondition", desc, "pegir-fixpoint", function=f"peg_parser/parser.py:XonshParser.{name}")
 
 
+def cache_lifetime_obligations(rep: Report):
+    """the memo cache lives as long as one pass: `self._cache` is bound once (Parser.__init__), cleared only between the two passes
+    (Parser.parse) and stored into only by the three memoising wrappers -- no rule method swaps, copies or empties it (a rule that
+    ran with a private cache would re-parse its whole input at every nesting level)"""
+    import ast as _ast
+    import os
+    from checks.common import REPO
+    allowed_bind = {("peg_parser/subheader.py", "Parser.__init__")}
+    allowed_clear = {("peg_parser/subheader.py", "Parser.parse")}
+    allowed_store = {("peg_parser/subheader.py", "memoize.memoize_wrapper"), ("peg_parser/subheader.py", "memoize_left_rec.memoize_left_rec_wrapper")}
+    for rel in ("peg_parser/subheader.py", "peg_parser/parser.py"):
+        try:
+            tree = _ast.parse(open(os.path.join(REPO, rel), encoding="utf-8").read())
+        except (OSError, SyntaxError) as e:
+            rep.undecided(f"C18.cache.lifetime.{os.path.basename(rel)}", "frame", f"parse {rel}", "frames", repr(e))
+            continue
+        bad = []
+
+        def visit(node, qual):
+            for ch in _ast.iter_child_nodes(node):
+                q = qual
+                if isinstance(ch, (_ast.FunctionDef, _ast.ClassDef, _ast.AsyncFunctionDef)):
+                    q = f"{qual}.{ch.name}" if qual else ch.name
+                is_cache = lambda x: isinstance(x, _ast.Attribute) and x.attr == "_cache"
+                tg = []
+                if isinstance(ch, _ast.Assign):
+                    tg = ch.targets
+                elif isinstance(ch, (_ast.AugAssign, _ast.AnnAssign)):
+                    tg = [ch.target]
+                elif isinstance(ch, _ast.Delete):
+                    tg = ch.targets
+                for t in tg:
+                    for x in _ast.walk(t):
+                        if is_cache(x) and isinstance(t, _ast.Attribute) and (rel, qual) not in allowed_bind:
+                            bad.append(f"{qual}: `{_ast.unparse(ch)[:70]}` rebinds the cache (line {ch.lineno})")
+                        elif is_cache(x) and isinstance(t, _ast.Subscript) and (rel, qual) not in allowed_store:
+                            bad.append(f"{qual}: `{_ast.unparse(ch)[:70]}` stores into the cache (line {ch.lineno})")
+                        elif is_cache(x) and isinstance(t, (_ast.Tuple, _ast.List)):
+                            bad.append(f"{qual}: `{_ast.unparse(ch)[:70]}` (line {ch.lineno})")
+                if isinstance(ch, _ast.Call) and isinstance(ch.func, _ast.Attribute) and is_cache(ch.func.value) and ch.func.attr in (
+                        "clear", "pop", "popitem", "update", "setdefault", "copy", "__setitem__", "__delitem__") and (rel, qual) not in allowed_clear:
+                    bad.append(f"{qual}: `{_ast.unparse(ch)[:70]}` (line {ch.lineno})")
+                visit(ch, q)
+        visit(tree, "")
+        oid = f"C18.cache.lifetime.{os.path.basename(rel)}"
+        desc = (f"{rel}: the memo cache is bound once in Parser.__init__, cleared only between the passes in Parser.parse and stored into only by the memoising "
+                "wrappers (no rule runs with a private or emptied cache)")
+        if bad:
+            rep.fail(oid, "frame", desc, "frames", "; ".join(bad[:3]), witness=bad[:6], function=f"{rel}:<module>")
+        else:
+            rep.ok(oid, "frame", desc, "frames", function=f"{rel}:<module>")
+
+
 def run(rep: Report):
     ir = irload.ir("xonsh")
     rep.trust("engine/pegir.py extractor", "engine/pegfacts.py + engine/pegmemo.py (own fixpoint / graph procedures)", "CPython ast")
@@ -88,6 +141,7 @@ def run(rep: Report):
         rep.extra.setdefault("memo_graph", {})[label] = {"unmemoised_rules_reachable": len(rs), "pairs_checked": pairs,
                                                           "memoised": sorted(n for n, m in md.memo.items() if m and n in reach)[:80]}
     progress_obligations(rep, ir, "C18")
+    cache_lifetime_obligations(rep)
     # diagnostic only (DESIGN C18): memo-flag parity with the reference grammar
     # bounded stand-in
     t0 = time.time()
